@@ -38,4 +38,5 @@ def run(idx, rep, tier):
     hydro.r_hpcover(idx, rep)      # a polygon that is not clipped by one half-plane leaves its tetrahedron and over-estimates the force on one side only
     misc2.r_hplayout(idx, rep)
     misc2.r_anglesort(idx, rep)
+    generic2.r_convexweights(idx, rep, [m.name for m in idx.lib_modules()], floor=1)      # the contact point of coinciding tetrahedra is their potential-weighted centre: inside the tetrahedron only for weights that sum to one
     unpack.r_unpack(idx, rep, floor=6)
